@@ -416,7 +416,16 @@ def _is_pow2(M, a, info):
     return z3.And(x != 0, (x & (x - 1)) == 0)
 
 
-@model('usize::pow', 'usize::wrapping_add', 'usize::wrapping_sub', 'usize::wrapping_mul')
+for _t in ('usize', 'isize', 'u8', 'u16', 'u32', 'u64', 'i8', 'i16', 'i32', 'i64'):
+    for _o, _mir in (('wrapping_add', 'Add'), ('wrapping_sub', 'Sub'), ('wrapping_mul', 'Mul')):
+        def _mkw(mirop):
+            def fn(M, a, info):
+                return M.I.binop(mirop, _opt(a[0]), _opt(a[1]), _int_ty(info))
+            return fn
+        TABLE[_t + '::' + _o] = _mkw(_mir)
+
+
+@model('usize::pow')
 def _wrapping(M, a, info):
     op = info[1].split('::')[-1]
     x, y = a
@@ -1285,9 +1294,27 @@ Models.iterate = lambda self, v: _iterate(self, v)
 Models.find_ref_into_iter = _find_ref_into_iter
 
 
+LOOP_LIMIT = 4096
+
+
+def _range_bound_check(M, r, lo, hi):
+    """a loop over a range whose length is symbolic: if the path condition allows more than LOOP_LIMIT iterations, that
+    part of the input space is reported as one `unbounded` leaf instead of being unrolled"""
+    if not (is_sym(lo) or is_sym(hi)): return
+    key = id(r)
+    if key in M.I.checked_ranges: return
+    M.I.checked_ranges[key] = r
+    zl = bv(lo, 64); zh = bv(hi, 64)
+    if M.I.branch(z3.And(z3.ULT(zl, zh), z3.UGT(zh - zl, z3.BitVecVal(LOOP_LIMIT, 64)))):
+        raise Unbounded('loop over a range of more than %d iterations (length depends on the input) in %s' % (LOOP_LIMIT, M.I.stack[-1] if M.I.stack else '?'))
+
+
 def _range_gen(M, r):
+    first = True
     while True:
         lo, hi = r.fields[0], r.fields[1]
+        if first:
+            _range_bound_check(M, r, lo, hi); first = False
         if is_sym(lo) or is_sym(hi):
             c = z3.ULT(bv(lo, 64), bv(hi, 64))
         else:
@@ -1324,6 +1351,7 @@ def _iter_next(M, a, info):
     while type(it) is Ptr: it = it.get()
     if type(it) is Adt and segs(it.name)[-1] == 'Range':
         lo, hi = it.fields[0], it.fields[1]
+        _range_bound_check(M, it, lo, hi)
         c = z3.ULT(bv(lo, 64), bv(hi, 64)) if (is_sym(lo) or is_sym(hi)) else lo < hi
         if M.I.branch(c):
             it.fields[0] = lo + 1
